@@ -93,6 +93,7 @@ def plan(tier, seed):
     n = 8 if tier == "quick" else 32
     for i in range(n):
         shards.append({"sweep": True, "seed": seed * 977 + i, "machines": 3 if tier == "quick" else 16})
+    shards.append({"entry_probes": True, "seed": seed, "count": 18 if tier == "quick" else 90})
     return shards
 
 
@@ -212,7 +213,109 @@ def run_sweep(desc):
             "counters": counters, "violations": violations}
 
 
+ENTRY_SRC = '''
+def helper(self):
+    LOG.append("helper")
+    return "H"
+
+class D(StateMachine):
+    a = State(initial=True)
+    b = State()
+    ev = a.to(b)(helper)                               # event declared by calling the transition with a callable
+    back = b.to(a)(lambda self: LOG.append("lam") or "L")   # ... whose __name__ is not the attribute name
+    @a.to(b)
+    def jump(self):
+        LOG.append("jump")
+        return "J"
+
+class T:
+    pass
+'''
+
+
+def run_entry_probes(desc):
+    """(1) an event declared through the decorator / call form over a callable whose __name__ differs from
+    the attribute name is the event of THAT attribute in every calling style; (2) a trigger (bound onto
+    another object, item of events / allowed_events) keeps working when it is the only thing the caller
+    kept: it is an entry point of its machine, not a weak handle."""
+    import gc
+
+    from statemachine import State, StateMachine
+    from statemachine.exceptions import TransitionNotAllowed
+
+    counters = {"entry_probes": 0}
+    violations = []
+    for rep in range(desc.get("count", 20)):
+        log = []
+        ns = {"State": State, "StateMachine": StateMachine, "LOG": log, "__name__": "vmon_c13e"}
+        with warnings.catch_warnings():
+            warnings.simplefilter("ignore")
+            exec(compile(ENTRY_SRC, "<c13-entry>", "exec"), ns)
+            problems = []
+            try:
+                sm = ns["D"]()
+                if sorted(str(e) for e in sm.events) != ["back", "ev", "jump"]:
+                    problems.append(f"events {[str(e) for e in sm.events]}")
+                if sorted(str(e) for e in sm.allowed_events) != ["ev", "jump"]:
+                    problems.append(f"allowed_events in a: {[str(e) for e in sm.allowed_events]}")
+                style = ["method", "send", "item"][rep % 3]
+                for name, ret, tag, dst in (("ev", "H", "helper", "b"), ("back", "L", "lam", "a"), ("jump", "J", "jump", "b")):
+                    del log[:]
+                    if style == "method":
+                        res = getattr(sm, name)()
+                    elif style == "send":
+                        res = sm.send(name)
+                    else:
+                        res = next(e for e in sm.events if str(e) == name)()
+                    if res != ret or log != [tag] or sm.current_state.id != dst:
+                        problems.append(f"{style} {name}: returned {res!r}, callbacks {log}, state {sm.current_state.id}")
+                    if name == "jump":
+                        sm.send("back")
+                for bad in ("helper", "<lambda>"):
+                    try:
+                        sm.send(bad)
+                        problems.append(f"send({bad!r}) accepted")
+                    except TransitionNotAllowed:
+                        pass
+            except Exception as err:  # noqa: BLE001
+                problems.append(f"{type(err).__name__}: {err}"[:200])
+            if problems:
+                violations.append({"mechanism": "decorator-declared-event-under-another-name", "rule": "C13.same-entry-point",
+                                   "detail": "; ".join(problems)[:500], "witness": {"source": ENTRY_SRC}})
+
+            # (2)
+            def factory(kind):
+                m = ns["D"]()
+                t = ns["T"]()
+                m.bind_events_to(t)
+                return {"bound": t.ev, "events_item": m.events[0], "allowed_item": m.allowed_events[0]}[kind], t
+
+            kind = ["bound", "events_item", "allowed_item"][rep % 3]
+            trig, keep = factory(kind)
+            if kind != "bound":
+                keep = None
+            gc.collect()
+            del log[:]
+            try:
+                res = trig()
+                ok = res == "H" and log == ["helper"]
+                detail = f"returned {res!r}, callbacks {log}"
+            except Exception as err:  # noqa: BLE001
+                ok, detail = False, f"{type(err).__name__}: {err}"[:200]
+            if not ok:
+                violations.append({"mechanism": "trigger-outliving-other-references-to-its-machine", "rule": "C13.same-entry-point",
+                                   "detail": f"{kind}: {detail}", "witness": {"source": ENTRY_SRC, "kind": kind}})
+        counters["entry_probes"] += 1
+    byk = {}
+    for v in violations:
+        byk.setdefault(v["mechanism"], []).append(v)
+    return {"evaluations": counters["entry_probes"], "signatures": [], "samples": [], "counters": counters,
+            "violations": [v for vs in byk.values() for v in vs[:1]]}
+
+
 def run_shard(desc):
+    if desc.get("entry_probes"):
+        return run_entry_probes(desc)
     django_once()
     if desc.get("sweep"):
         return run_sweep(desc)
